@@ -479,7 +479,7 @@ class Verdict:
         # short / the state was not saved - a violation of whichever property the running check decides
         while PENDING_RAISES:
             w = PENDING_RAISES.pop(0)
-            self.violation(dict(w, clause='code_under_test_raised', check='session raised'),
+            self.violation(dict(w, clause=w.get('clause', 'code_under_test_raised'), check='session raised'),
                            'the session raised %s; %s' % (w.get('error'), short({k: v for k, v in w.items() if k != 'error'}, 200)))
         known = {}
         unlisted = []
